@@ -104,6 +104,7 @@ namespace osmium {
                 NodeRef m_second;
                 ProtoRing* m_ring = nullptr;
                 bool m_reverse = false;
+                bool m_direction_done = false;
             public:
                 NodeRefSegment() noexcept = default;
                 NodeRefSegment(const NodeRef& nr1, const NodeRef& nr2) noexcept :
@@ -116,6 +117,9 @@ namespace osmium {
                 bool is_reverse() const noexcept { return m_reverse; }
                 bool is_done() const noexcept { return m_ring != nullptr; }
                 void set_ring(ProtoRing* ring) noexcept { m_ring = ring; }
+                bool is_direction_done() const noexcept { return m_direction_done; }
+                void mark_direction_done() noexcept { m_direction_done = true; }
+                void mark_direction_not_done() noexcept { m_direction_done = false; }
                 void reverse() noexcept { m_reverse = !m_reverse; }
                 int64_t det() const noexcept {
                     const Location a = m_reverse ? m_second.location() : m_first.location();
@@ -284,6 +288,45 @@ namespace osmium {
                     }
                 }
 
+                struct ring_end {
+                    Location location;
+                    int ring;
+                    bool operator==(const ring_end& other) const noexcept { return location == other.location; }
+                    bool operator<(const ring_end& other) const noexcept { return location < other.location; }
+                };
+
+                static std::vector<ring_end> sorted_ring_ends(const std::vector<ring_end>& in) {
+                    std::vector<ring_end> ends{in};
+                    std::stable_sort(ends.begin(), ends.end());
+                    return ends;
+                }
+
+                bool try_to_merge(const std::vector<ring_end>& in) {
+                    const std::vector<ring_end> ends = sorted_ring_ends(in);
+                    auto it = ends.cbegin();
+                    while (it != ends.cend()) {
+                        it = std::adjacent_find(it, ends.cend());
+                        if (it == ends.cend()) {
+                            return false;
+                        }
+                        const auto after = std::next(it, 2);
+                        if (after == ends.cend() || after->location != it->location) {
+                            return true;
+                        }
+                        it = after;                                                              // S5: rest of the group looks like a pair
+                    }
+                    return false;
+                }
+
+                void add_new_ring(NodeRefSegment* segment) {                                      // A4: added, classified, never marked
+                    ProtoRing* outer = find_enclosing_ring(segment);
+                    m_rings.emplace_back();
+                    m_rings.back().add_segment_back(segment);
+                    if (outer) {
+                        outer->add_inner_ring(&m_rings.back());
+                    }
+                }
+
                 void classify_tentatively() {
                     for (auto& ring : m_rings) {
                         if (!ring.is_outer()) {
@@ -323,7 +366,14 @@ namespace osmium {
                     const Location location = segment->first().location();
                     int nesting = 0;
                     std::vector<rings_stack_element> outer_rings;
+                    if (segment != &m_segment_list.back()) {                                     // G6: one step, not the whole group
+                        ++segment;
+                    }
                     while (segment >= &m_segment_list.front()) {
+                        if (!segment->is_direction_done()) {
+                            --segment;
+                            continue;
+                        }
                         const Location a = segment->first().location();
                         const Location b = segment->second().location();
                         if (segment->first().location() == location) {
@@ -380,6 +430,8 @@ namespace osmium {
                     }
                     create_rings_simple_case();
                     classify_tentatively();
+                    add_new_ring(&m_segment_list.front());
+                    (void)try_to_merge(std::vector<ring_end>{});
                     return true;
                 }
             };
